@@ -29,11 +29,7 @@ MAX_PATHS = 4000
 
 # constructs with a reported, not yet recorded defect of the unmodified tree (see /tmp/strengthen/G2/FINDING_1.md): reported through
 # r.info() instead of r.violate() until the finding is recorded in known_findings.txt / fixed.        # pending finding
-PENDING = {
-    'Nodes.InPlaceAssignmentNode.generate_execution_code:emit:putln':
-        'FINDING_1: `structbuf[i].field //= b` (attribute of a buffer element) reaches the generic `lhs op= rhs` emission with a C int target: '
-        'C truncation / SIGFPE with cdivision off',
-}
+PENDING = {}      # the one pending construct (`structbuf[i].field //= b`) was repaired in /repo (8cf270df4) and is armed now
 
 
 class _Fork(Exception):
